@@ -120,6 +120,7 @@ def check(ctx):
         ctx.broken("correspondence:interp1d", {"case": meta[i], "coq": cases[i][:1500]})
     oracle(ctx)
     batched_unsorted_probe(ctx)
+    default_extrap_probe(ctx)
 
 
 def oracle(ctx):
@@ -321,6 +322,30 @@ def batched_unsorted_probe(ctx):
                     continue
                 if got.shape != ref.shape or not torch.allclose(got, ref, rtol=1e-9, atol=1e-10):
                     ctx.fail("oracle", "interp:batched-unsorted-x:%s" % name, info, {"shape": list(got.shape)}, {"shape": list(ref.shape)})
+
+
+def default_extrap_probe(ctx):
+    """the documented DEFAULT extrapolation follows the boundary condition: clamped -> mirror, periodic -> periodic, otherwise nan
+    (round-5 seed C14/14: the base class stored the raw None, queries outside the range came back as nan for every bc)"""
+    from xitorch.interpolate import Interp1D
+    g = torch.Generator().manual_seed(ctx.seed + 23)
+    x = torch.cumsum(torch.rand(6, dtype=DT, generator=g) + 0.2, dim=-1)
+    q = torch.cat([x[:1] - torch.tensor([0.7, 0.1], dtype=DT), x[2:3] + 0.01, x[-1:] + torch.tensor([0.05, 0.9], dtype=DT)])
+    for bc, mode in (("clamped", "mirror"), ("periodic", "periodic"), ("natural", "nan"), ("not-a-knot", "nan")):
+        y = torch.randn(6, dtype=DT, generator=g)
+        if bc == "periodic":
+            y[-1] = y[0]
+        ctx.count(("default-extrap", bc), nontrivial=True)
+        try:
+            got = Interp1D(x, y, method="cspline", bc_type=bc)(q)
+            ref = Interp1D(x, y, method="cspline", bc_type=bc, extrap=mode)(q)
+        except Exception as e:
+            ctx.fail("oracle", "interp:default-extrap:%s:exception" % bc, {"bc": bc}, repr(e)[:200], "values")
+            continue
+        same = torch.equal(torch.isnan(got), torch.isnan(ref)) and torch.allclose(got[~torch.isnan(ref)], ref[~torch.isnan(ref)], rtol=1e-12, atol=1e-13)
+        if not same or (mode != "nan" and bool(torch.isnan(got).any())):
+            ctx.fail("oracle", "interp:default-extrap:%s" % bc, {"bc": bc, "documented_default": mode, "x": x.tolist(), "queries": q.tolist()},
+                     {"got": got.tolist()}, {"with_explicit_extrap": ref.tolist()})
 
 
 def search(ctx):
